@@ -316,7 +316,13 @@ def rotations(c, rebound, exe):
             qv = ql(q)
             lines.append("fromto " + hv(*f, *t)); expect.append(" ".join(d2h(x) for x in qv)); meta.append(("fromto", cls))
             lines.append("fromtofixed " + hv(*f, *t)); expect.append(" ".join(d2h(x) for x in qv)); meta.append(("fromtofixed", cls))
-            ft_cases.append((f, t, cls, qv))
+            _ff, _tt = fr3(f), fr3(t)
+            _anti = fdot(_ff, _tt) < 0 and sum(x * x for x in fcross(_ff, _tt)) <= Fr(1, 10 ** 24) * fdot(_ff, _ff) * fdot(_tt, _tt)
+            ft_cases.append((f, t, cls if not _anti else "antiparallel-near", qv))
+            # conditioning of the construction: the bisector from+to cancels when the vectors are nearly opposite
+            _lf, _lt = math.sqrt(float(fdot(_ff, _ff))) or 1.0, math.sqrt(float(fdot(_tt, _tt))) or 1.0
+            _hs = math.sqrt(sum((a / _lf + b / _lt) ** 2 for a, b in zip(f, t)))
+            tolf[len(lines) - 1] = tolf[len(lines) - 2] = max(1.0, 2.0 / _hs) if _hs > 1e-9 else 1.0   # exactly opposite: own branch, well conditioned
             hist[cls] = hist.get(cls, 0) + 1
             c.count(("from_to", cls, i % 40))
             # ---- search: unit and maps from -> to (oracle: exact rational q v q^-1 on the returned doubles,
@@ -423,6 +429,21 @@ def rotations(c, rebound, exe):
             _dp = sum(a * b for a, b in zip(nz, nx)) / _lz
             _perp = math.sqrt(max(sum((a - _dp * b / _lz) ** 2 for a, b in zip(nx, nz)), 1e-300))
             _cond = max(1.0, math.sqrt(sum(x * x for x in nx)) / _perp, math.sqrt(sum(x * x for x in nx)) * max(_lz, 1.0) / _perp)
+            try:
+                _zn = [x / _lz for x in nz]
+                _c1 = 2.0 / max(math.sqrt(sum((a + b) ** 2 for a, b in zip(_zn, [0, 0, 1]))), 1e-300)
+                _q1 = F["rotation_init_from_to"](V(*_zn), V(0, 0, 1))
+                _x2 = vl(F["vec3d_rotate"](V(*[a - _dp * b for a, b in zip(nx, _zn)]), _q1))
+                _l2 = math.sqrt(sum(x * x for x in _x2)) or 1.0
+                _c2 = 2.0 / max(math.sqrt(sum((a / _l2 + b) ** 2 for a, b in zip(_x2, [1, 0, 0]))), 1e-300)
+                # exactly opposite vectors take the dedicated (well conditioned) branch
+                _c1 = _c1 if _c1 < 1e9 else 1.0
+                _c2 = _c2 if _c2 < 1e9 else 1.0
+                _cond = max(_cond, _c1, _c2, _cond * _c2)
+            except Exception:
+                pass
+            if not _cond == _cond:
+                _cond = 1.0
             for vv in ("00", "10", "01", "11"):
                 tolf[len(lines)] = _cond
                 lines.append("newaxes" + vv + " " + hv(*nz, *nx)); expect.append(" ".join(d2h(x) for x in ql(q))); meta.append(("newaxes" + vv, "newaxes"))
@@ -438,7 +459,7 @@ def rotations(c, rebound, exe):
                 gz = vl(F["vec3d_rotate"](V(*zn), q))
                 gx = vl(F["vec3d_rotate"](V(*xn), q))
                 e = max(max(abs(a - b) for a, b in zip(gz, [0, 0, 1])), max(abs(a - b) for a, b in zip(gx, [1, 0, 0])))
-                cond = math.sqrt(sum(x * x for x in nx)) / lx
+                cond = max(math.sqrt(sum(x * x for x in nx)) / lx, _cond)     # incl. the conditioning of the two from_to stages
                 note("new_axes_maps", e / cond)
                 note("new_axes_norm", abs(nq - 1))
                 if not abs(nq - 1) <= 1e-13 or not e <= 1e-13 * cond:
